@@ -9,6 +9,8 @@ The model mirrors the code as it is.
 namespace Markup
 open Py
 
+deriving instance DecidableEq for Except
+
 /-- tokens of `AnsiParser` – `(TokenType.TEXT, s)`, `(TokenType.ANSI, code)`, `(TokenType.LEVEL, None)`,
 `(TokenType.CLOSING, "\033[0m")` -/
 inductive Tok where
@@ -32,19 +34,30 @@ def isTagChar (c : Char) : Bool := c != '<' && c != '>' && !isWs c
 
 /-! ### the scanner -/
 
+/-- longest prefix of characters satisfying `p`, and the rest -/
+def spanP (p : Char → Bool) : Str → Str × Str
+  | [] => ([], [])
+  | c :: r => if p c then ((c :: (spanP p r).1), (spanP p r).2) else ([], c :: r)
+
+/-- `[^<>\s]*>` after the already matched prefix `pre` -/
+def tagBody (pre r2 : Str) : Option (Str × Str) :=
+  match spanP isTagChar r2 with
+  | (body, '>' :: r4) => some (pre ++ body, r4)
+  | _ => none
+
+/-- `(?:[fb]g\s)?` then the body -/
+def tagPre (slash r1 : Str) : Option (Str × Str) :=
+  match r1 with
+  | a :: 'g' :: w :: r => if (a == 'f' || a == 'b') && isWs w then tagBody (slash ++ [a, 'g', w]) r else tagBody slash r1
+  | _ => tagBody slash r1
+
 /-- `tagAt rest` – `rest` is the text right after a `<`.  Succeeds when `/?(?:[fb]g\s)?[^<>\s]*>` matches
 there; returns the text between `<` and `>` and the remainder after `>`.  (The optional groups never need
 backtracking: when the greedy choice fails, so do the alternatives – see design_notes.) -/
 def tagAt (rest : Str) : Option (Str × Str) :=
-  let (slash, r1) : Str × Str := match rest with
-    | '/' :: r => (['/'], r)
-    | r => ([], r)
-  let (pre, r2) : Str × Str := match r1 with
-    | a :: 'g' :: w :: r => if (a == 'f' || a == 'b') && isWs w then ([a, 'g', w], r) else ([], r1)
-    | _ => ([], r1)
-  match r2.span isTagChar with
-  | (body, '>' :: r4) => some (slash ++ pre ++ body, r4)
-  | _ => none
+  match rest with
+  | '/' :: r => tagPre ['/'] r
+  | r => tagPre [] r
 
 /-- one regex match: the literal text before it, the number of backslashes, the text between `<` and `>` -/
 structure Seg where
@@ -161,28 +174,31 @@ structure P where
 /-- the colour tokens in force, oldest first (`self._color_tokens`) -/
 def P.colorTokens (p : P) : List Tok := p.stack.reverse.map (·.2)
 
-/-- effect of one regex match -/
+/-- interpretation of an (unescaped) tag; `inner` is the text between `<` and `>` -/
+def feedTag (p : P) (inner : Str) : Except Err P :=
+  match inner with
+  | '/' :: tag =>
+    match p.stack with
+    | (top, _) :: below =>
+      if tag.isEmpty || tag == top then
+        .ok { tokens := p.tokens ++ [.closing] ++ below.reverse.map (·.2), stack := below }
+      else .error .valueError
+    | [] => .error .valueError
+  | tag =>
+    if Gen.levelTags.contains tag then
+      .ok { tokens := p.tokens ++ [.level], stack := (tag, .level) :: p.stack }
+    else
+      match getAnsiCode tag with
+      | some a => .ok { tokens := p.tokens ++ [.ansi a], stack := (tag, .ansi a) :: p.stack }
+      | none => .error .valueError
+
+/-- effect of one regex match: the literal text before it, then the odd/even backslash rule -/
 def feedSeg (p : P) (s : Seg) : Except Err P :=
-  let p1 : P := { p with tokens := p.tokens ++ [.text s.pre] }
   if s.nb % 2 == 1 then
-    .ok { p1 with tokens := p1.tokens ++ [.text (bs (s.nb / 2) ++ ('<' :: s.inner ++ ['>']))] }
+    .ok { p with tokens := p.tokens ++ [.text s.pre, .text (bs (s.nb / 2) ++ ('<' :: s.inner ++ ['>']))] }
   else
-    let p2 : P := if s.nb > 0 then { p1 with tokens := p1.tokens ++ [.text (bs (s.nb / 2))] } else p1
-    match s.inner with
-    | '/' :: tag =>
-      match p2.stack with
-      | (top, _) :: below =>
-        if tag.isEmpty || tag == top then
-          .ok { tokens := p2.tokens ++ [.closing] ++ below.reverse.map (·.2), stack := below }
-        else .error .valueError
-      | [] => .error .valueError
-    | tag =>
-      if Gen.levelTags.contains tag then
-        .ok { tokens := p2.tokens ++ [.level], stack := (tag, .level) :: p2.stack }
-      else
-        match getAnsiCode tag with
-        | some a => .ok { tokens := p2.tokens ++ [.ansi a], stack := (tag, .ansi a) :: p2.stack }
-        | none => .error .valueError
+    feedTag { p with tokens := p.tokens ++ .text s.pre :: (if s.nb > 0 then [.text (bs (s.nb / 2))] else []) }
+      s.inner
 
 def feedSegs : P → List Seg → Except Err P
   | p, [] => .ok p
@@ -197,6 +213,13 @@ def feed (p : P) (text : Str) (raw : Bool := false) : Except Err P :=
     let (segs, tail) := scan text
     match feedSegs p segs with
     | .ok p' => .ok { p' with tokens := p'.tokens ++ [.text tail] }
+    | .error e => .error e
+
+/-- a sequence of `feed` calls on one parser (`(text, raw)` pairs) -/
+def feedMany : P → List (Str × Bool) → Except Err P
+  | p, [] => .ok p
+  | p, (t, raw) :: r => match feed p t raw with
+    | .ok p' => feedMany p' r
     | .error e => .error e
 
 /-- `parser.done(strict=strict)` -/
